@@ -24,11 +24,13 @@ SUnch == UNCHANGED <<svars, rc, sentby, kids, lost>>
 \* logged server state
 LogSess(ss) == [s \in DOMAIN ss |-> [params |-> ss[s].params, set |-> ss[s].set, last |-> ss[s].last,
                                       got |-> IF s \in DOMAIN sess THEN sess[s].got ELSE FALSE]]
-SessView(S) == [s \in DOMAIN S |-> [params |-> S[s].params, set |-> S[s].set, last |-> S[s].last]]
+SessView(S) == [s \in DOMAIN S |-> [params |-> S[s].params, set |-> S[s].set]]
+LastView(S) == [s \in DOMAIN S |-> S[s].last]
 
 \* compare the specification's election/session state C = [sess, cur, master] with the log, then adopt the log
 SDiff(C, sst) ==
        Flag(SessView(C.sess) # SessView(LogSess(sst.sess)), "sst:sess")
+  \cup Flag(DOMAIN C.sess = DOMAIN sst.sess /\ LastView(C.sess) # LastView(LogSess(sst.sess)), "sst:last")
   \cup Flag(C.cur # sst.cur, "sst:cur")
   \cup Flag(C.master # sst.master, "sst:master")
   \cup Flag(sst.cur # (IF ann = {} THEN NoId ELSE CHOOSE m \in ann : \A x \in ann : IdLE(x, m)), "elecNotMax")
@@ -67,7 +69,7 @@ TSOpen ==
                \cup RibUnchangedDiff(Ev.st, "open"))
      /\ SAdopt(Ev.sst)
   /\ sout' = [kind |-> "open", s |-> Ev.s]
-  /\ UNCHANGED <<vars, req, ann, skip, dead, known, rc, sentby, kids, lost>>
+  /\ UNCHANGED <<vars, req, ann, sf, skip, dead, known, rc, sentby, kids, lost>>
 
 TSClose ==
   /\ ~dead /\ IsEvent("close")
@@ -78,12 +80,12 @@ TSClose ==
                \cup {"close:" \o x : x \in SDiff(C, Ev.sst)} \cup RibUnchangedDiff(Ev.st, "close"))
      /\ SAdopt(Ev.sst)
   /\ sout' = [kind |-> "close", s |-> Ev.s, end |-> Ev.end]
-  /\ UNCHANGED <<vars, req, ann, skip, dead, known, rc, sentby, kids, lost>>
+  /\ UNCHANGED <<vars, req, ann, sf, skip, dead, known, rc, sentby, kids, lost>>
 
 TSMsgBegin ==
   /\ ~dead /\ IsEvent("msgbegin")
   /\ IF Idle /\ Ev.s \in DOMAIN sess
-     THEN MsgBegin(Ev.s, Ev.m) /\ skip' = FALSE
+     THEN MsgBegin(Ev.s, Ev.m, Ev.sendfail) /\ skip' = FALSE
      ELSE Report({"msgUnexpected"}) /\ skip' = TRUE /\ UNCHANGED allvars
   /\ rc' = "none"
   /\ sentby' = IF Ev.m.k = "ops"
@@ -139,7 +141,7 @@ TSOpDone ==
                              \cup Flag(foreign # {} /\ foreign \subseteq kids, "KF:heldOpAnsweredToOtherSession")))
           /\ req' = [req EXCEPT !.ops = Tail(@), !.resp = Append(@, Ev.resp)]
           /\ rc' = "none"
-          /\ UNCHANGED <<vars, sess, cur, master, sout, ann>>
+          /\ UNCHANGED <<vars, sess, cur, master, sout, ann, sf>>
   /\ UNCHANGED <<skip, dead, known, sentby, kids, lost>>
 
 \* the RIB call of the head operation completed but its response never reached the
@@ -150,7 +152,7 @@ TSOpLost ==
         /\ (rc = "done" \/ (rc = "none" /\ OpPre(HeadOp).k = "failed"))
      THEN req' = [req EXCEPT !.ops = Tail(@)] /\ lost' = TRUE /\ rc' = "none"
      ELSE Report({"opsUnanswered"}) /\ UNCHANGED <<req, lost, rc>>
-  /\ UNCHANGED <<vars, sess, cur, master, sout, ann, skip, dead, known, sentby, kids>>
+  /\ UNCHANGED <<vars, sess, cur, master, sout, ann, sf, skip, dead, known, sentby, kids>>
 
 NonOpResp(rs) == SelectSeq(rs, LAMBDA r : r.k # "res")
 
@@ -166,7 +168,11 @@ TSMsgEnd ==
                          /\ OpPre(req.ops[2]).k = "err"
               ops2 == IF lostOne THEN Tail(req.ops) ELSE req.ops
               rc2  == IF lostOne THEN "none" ELSE rc
+              sendfail == sf
               headErr == IF req.end # NoEnd THEN req.end
+                         ELSE IF sendfail /\ (req.resp # <<>> \/ lost \/
+                                              (req.ops # <<>> /\ (rc = "done" \/ (rc = "none" /\ OpPre(HeadOp).k = "failed"))))
+                              THEN End("Internal", "")
                          ELSE IF ops2 = <<>> THEN NoEnd
                          ELSE IF rc2 = "err" THEN End("Unimplemented", "")
                          ELSE IF rc2 = "none" /\ OpPre(Head(ops2)).k = "err" THEN OpPre(Head(ops2)).end
@@ -174,17 +180,23 @@ TSMsgEnd ==
               gone == headErr # NoEnd
               C == [sess |-> IF gone THEN Del(sess, req.s) ELSE sess, cur |-> cur, master |-> master]
           IN
-          /\ Report(Flag(headErr.code = "?" \/ (lost /\ Ev.end = NoEnd), "opsUnanswered")
-                    \cup Flag(headErr.code # "?" /\ Ev.end # headErr, "end")
+          /\ Report(Flag(headErr.code = "?" \/ (lost /\ Ev.end = NoEnd /\ ~sendfail), "opsUnanswered")
+                    \cup Flag(headErr.code # "?" /\ Ev.end # headErr
+                              \* after a failed write the straggling next operation may report its own
+                              \* fatal error first (two goroutines race to end the RPC)
+                              /\ ~(sendfail /\ lost /\ req.ops # <<>> /\ rc = "none" /\ OpPre(HeadOp).k = "err"
+                                    /\ Ev.end = OpPre(HeadOp).end)
+                              /\ ~(sendfail /\ lost /\ rc = "err" /\ Ev.end = End("Unimplemented", ""))
+                              /\ ~(sendfail /\ lostOne /\ Ev.end = OpPre(req.ops[2]).end), "end")
                     \cup Flag(NonOpResp(Ev.resp) # Ev.resp, "extraResp")
-                    \cup Flag(NonOpResp(req.resp) # NonOpResp(Ev.resp),
+                    \cup Flag(~sendfail /\ NonOpResp(req.resp) # NonOpResp(Ev.resp),
                               IF Len(NonOpResp(req.resp)) > 0 /\ NonOpResp(req.resp)[1].k = "elec" THEN "resp:elec" ELSE "resp")
                     \cup SDiff(C, Ev.sst)
                     \cup RibUnchangedDiff(Ev.st, "msgend"))
           /\ SAdopt(Ev.sst)
   /\ req' = IdleReq
   /\ sout' = [kind |-> "msg", s |-> Ev.s, resp |-> Ev.resp, end |-> Ev.end]
-  /\ rc' = "none" /\ skip' = FALSE /\ lost' = FALSE
+  /\ rc' = "none" /\ skip' = FALSE /\ lost' = FALSE /\ sf' = FALSE
   /\ UNCHANGED <<vars, ann, dead, known, sentby, kids>>
 
 TSFlushRPC ==
@@ -210,7 +222,7 @@ TSFlushRPC ==
           /\ ref' = R2 /\ pflush' = pf
           /\ out' = [kind |-> "flush", ok |-> Ev.end.code = "OK"]
           /\ sout' = [kind |-> "flush", end |-> Ev.end]
-          /\ UNCHANGED <<fwd, call, req, ann, skip, dead, known, rc, sentby, kids, lost>>
+          /\ UNCHANGED <<fwd, call, req, ann, sf, skip, dead, known, rc, sentby, kids, lost>>
 
 \* Get: exactly the installed entries of the scope, tagged and payload-faithful (C07)
 \* Known finding (C07): the ygot protomap library cannot map boolean leaves back to
@@ -244,7 +256,7 @@ TSGet ==
      IN
      Report(IF failing
             THEN Flag(Ev.end.code = "OK" /\ Cardinality(GetEntries(Ev.g)) > Ev.failafter, "getEndAfterSendFailure")
-                 \cup Flag(~(got \subseteq GetEntries(Ev.g)), "getForeignEntry")
+                 \cup Flag(~(gotQ \subseteq GetEntries(Ev.g)), "getForeignEntry")
             ELSE Flag(Ev.end.code # (IF ok THEN "OK" ELSE "Internal"), "getEnd")
                  \cup Flag("bad" \in DOMAIN Ev, "getBadEntry")
                  \cup Flag(ok /\ Len(Ev.entries) # Cardinality(got), "getDuplicate")
